@@ -236,7 +236,7 @@ impl Prop for C10 {
     }
 
     fn runs(tier: Tier) -> u64 {
-        tier.pick(2_000, 100_000)
+        tier.pick(2_000, 60_000)
     }
 
     fn run_wall_limit_s() -> u64 {
